@@ -98,7 +98,8 @@ def _st(burn, holes, board, draw, opening, mn, cap):
 
 def custom_templates(rng, mn, structure):
     """Return dict name -> custom spec pieces (without chips)."""
-    cap = 4 if structure == 'FIXED_LIMIT' else rng.choice([None, None, 1, 2, 3])
+    cap = 4 if structure == 'FIXED_LIMIT' else rng.choice(
+        [None, None, 1, 2, 3, 0])      # 0: a check-only street
     P = 'POSITION'
     t = {}
     t['kuhn'] = dict(
@@ -115,6 +116,12 @@ def custom_templates(rng, mn, structure):
                  _st(1, [1], 0, 0, 'HIGH_HAND', 2 * mn, cap),
                  _st(1, [1], 0, 0, 'HIGH_HAND', 2 * mn, cap)],
         maxn=9, stud=True)
+    k = rng.choice([1, 1, 2])
+    t['openstud'] = dict(    # every street equal to the first: k up cards
+        deck='STANDARD', hand_types=['StandardHighHand'],
+        streets=[_st(0, [1] * k, 0, 0, 'LOW_CARD', mn, cap)
+                 for _ in range(5 if k == 1 else 3)],
+        maxn=8 if k == 1 else 6, stud=True)
     t['greek'] = dict(
         deck='STANDARD', hand_types=['GreekHoldemHand'],
         streets=[_st(0, [0, 0], 0, 0, P, mn, cap),
@@ -255,6 +262,10 @@ def gen_blinds(rng, n, unit, bb):
     elif k < 0.85 and n >= 4:
         v = [sb, bb] + [0] * (n - 2)
         v[rng.randrange(2, n)] = -bb                       # late post
+    elif k < 0.89 and n >= 4:
+        v = [sb, bb, -bb, 2 * bb]          # a post seated below a straddle
+        if n >= 5 and rng.random() < 0.5:
+            v = [sb, -sb, bb, 0, 2 * bb]
     elif k < 0.92:
         return {-1: bb * unit}                            # button blind
     else:
@@ -443,12 +454,19 @@ def _recorded(kind, fn):
     return wrapper
 
 
+def mode_of(cfg):
+    """Mode member, or (cfg['mode_as_str']) the plain string value, which
+    the StrEnum documents as equivalent."""
+    m = Mode[cfg['mode']]
+    return str(m.value) if cfg.get('mode_as_str') else m
+
+
 def build_game(cfg, autos=None):
     """Poker game object for kind == 'game' configurations."""
     cls = getattr(pk_games, cfg['game'])
     autos = autos_of(cfg) if autos is None else autos
     return cls(
-        autos, *cfg['gargs'], mode=Mode[cfg['mode']],
+        autos, *cfg['gargs'], mode=mode_of(cfg),
         starting_board_count=cfg['boards'],
         divmod=_recorded('divmod', make_divmod(cfg['divmod'])),
         rake=_recorded('rake', make_rake(cfg['rake'])),
@@ -473,7 +491,7 @@ def build_state(cfg, autos=None):
         c['bring_in'],
         cfg['stacks'],
         cfg['n'],
-        mode=Mode[cfg['mode']],
+        mode=mode_of(cfg),
         starting_board_count=cfg['boards'],
         divmod=_recorded('divmod', make_divmod(cfg['divmod'])),
         rake=_recorded('rake', make_rake(cfg['rake'])),
